@@ -95,7 +95,7 @@ def c08_pressure_form(ctx):
     ctx.check('sensitivity_budget', EXPO * eps_b * 2 + LN_B_MAX * eps_e + F(1, 10 ** 6) <= F(1, 10 ** 4))
 
 
-@harness('C08.density_form', 'C08', functions=FUNCS, must_reach=['check:dry_density_is_ideal_gas'], engine_opts={'div_check': False},
+@harness('C08.density_form', 'C08', functions=FUNCS, must_reach=['check:dry_density_is_ideal_gas'], engine_opts={'div_check': False, 'pin_check': True},
          bounds='calculate_air_density(t, p, 0) for all t in [-70, 60] C and p in [200, 1100] hPa vs the ideal-gas density p*M/(R*T) at 6e-5 relative '
                 '(rational function of two reals; z3 nlsat); density ratio = density / 1.225',
          stubs=['exp summarised (multiplied by humidity 0)'])
@@ -113,7 +113,7 @@ def _cfg_station(tier):
     return [{'zone': z} for z in ('at', 'near', 'far')]
 
 
-@harness('C08.station', 'C08', configs=_cfg_station, functions=FUNCS, engine_opts={'div_check': False},
+@harness('C08.station', 'C08', configs=_cfg_station, functions=FUNCS, engine_opts={'div_check': False, 'pin_check': True},
          must_reach=['check:station_values', 'check:shortcut_within_30ft', 'check:far_structure'],
          bounds='a station with arbitrary symbolic conditions (altitude, temperature, pressure) queried at its own altitude, within 30 ft, and '
                 'beyond: shortcut returns the station values; beyond 30 ft the returned terms have the lapse-rate / barometric structure',
@@ -155,7 +155,7 @@ def tq_code(ctx, atmo, a):
     return atmo.temperature_at_altitude(a) + F(27315, 100)
 
 
-@harness('C08.standard_consistency', 'C08', functions=FUNCS, engine_opts={'div_check': False},
+@harness('C08.standard_consistency', 'C08', functions=FUNCS, engine_opts={'div_check': False, 'pin_check': True},
          must_reach=['check:same_sound_speed_as_standard_station', 'check:pressure_bases_multiply'],
          bounds='a STANDARD station at symbolic altitude a0 predicting altitude a (|a - a0| >= 30 ft) vs a standard station created at a: '
                 'speed of sound (decided, 1e-5); pressure: the two barometric bases multiply to the base of the direct formula (decided, 1e-6) - '
@@ -182,7 +182,7 @@ def c08_standard_consistency(ctx):
 
 
 @harness('C08.humidity', 'C08', functions=FUNCS, must_reach=['check:rejected_outside_0_100', 'check:percent_equals_fraction'],
-         engine_opts={'div_check': False},
+         engine_opts={'div_check': False, 'pin_check': True},
          bounds='all humidity values: rejected iff < 0 or > 100; percent p in (1,100] and fraction p/100 give the same stored humidity and the same density term',
          stubs=['exp summarised'])
 def c08_humidity(ctx):
@@ -205,7 +205,7 @@ def c08_humidity(ctx):
         ctx.check_eq('setter_updates_density', a.density_ratio, dry.density_ratio)
 
 
-@harness('C08.vacuum', 'C08', functions=FUNCS, must_reach=['check:vacuum_density_zero'], engine_opts={'div_check': False},
+@harness('C08.vacuum', 'C08', functions=FUNCS, must_reach=['check:vacuum_density_zero'], engine_opts={'div_check': False, 'pin_check': True},
          bounds='Vacuum at any altitude / temperature, queried at any altitude (inside and outside the 30 ft shortcut): density ratio exactly 0, pressure 0',
          stubs=['sqrt/pow summarised'])
 def c08_vacuum(ctx):
@@ -229,7 +229,7 @@ def _cfg_mono(tier):
     return [{'var': v} for v in ('pressure', 'humidity', 'temperature')]
 
 
-@harness('C08.monotone', 'C08', configs=_cfg_mono, functions=FUNCS, engine_opts={'div_check': False, 'oblig_timeout_ms': 20000},
+@harness('C08.monotone', 'C08', configs=_cfg_mono, functions=FUNCS, engine_opts={'div_check': False, 'pin_check': True, 'oblig_timeout_ms': 20000},
          must_reach=['check:monotone'],
          bounds='calculate_air_density on t in [-60,60] C, p in [500,1100] hPa, humidity fraction in [0,1]: two inputs that differ in one variable are '
                 'ordered the stated way (pressure up => density up; humidity up => density down; temperature up => density down for dry air)',
